@@ -38,6 +38,11 @@ class C11Episode(Episode):
         if r.snap_before is None:
             return
         d = diff(r.snap_before, r.snap_after)
+        if d and getattr(r, 'env_during', 0):
+            # the environment acted inside this dispatch (another request
+            # arrived, a worker died): the loop's queues are not the
+            # request's doing
+            d = [x for x in d if x.split(':')[0] not in ('ready', 'timers')]
         if d:
             names = [x.split(':')[0] for x in d]
             if all(n in ('events', 'ready', 'timers') for n in names):
@@ -165,9 +170,18 @@ def gen_bad_request(rng, cfg, nwatch):
             p.update(rng.choice([{'pid': 'abc'}, {'graceful_timeout': 'soon'},
                                  {'pid': [1]}, {'signum': {'s': 15}}]))
         elif op['cmd'] == 'signal':
-            p['signum'] = 15
+            p['signum'] = rng.choice([15, 10, 28])
             p.update(rng.choice([{'pid': 'abc'}, {'childpid': 5},
-                                 {'pid': {'w': w, 'j': 0}, 'childpid': 'x'}]))
+                                 {'pid': {'w': w, 'j': 0}, 'childpid': 'x'},
+                                 # the pid of a real worker, as a string
+                                 {'pid': {'w': w, 'j': 0, 'as_str': True}},
+                                 {'pid': {'w': w, 'j': 0, 'as_str': True},
+                                  'recursive': True},
+                                 {'pid': {'w': w, 'j': 0, 'as_str': True},
+                                  'children': True},
+                                 {'pid': {'w': w, 'j': 0},
+                                  'childpid': {'w': w, 'j': 0, 'child': 0,
+                                               'as_str': True}}]))
         elif op['cmd'] == 'add':
             op['w'] = None
             p.update({'name': 'newone', 'cmd': 'worker --marker=new',
@@ -252,6 +266,7 @@ class C11(Prop):
     def gen(self, rng, tier, seed):
         cfg = gen.gen_base_cfg(rng, seed, nwatch=(2, 3),
                                kinds=('obedient', 'slow', 'stubborn'),
+                               kids=rng.random() < 0.3,
                                autostart_p=0.8, singleton_p=0.0)
         sw = cfg['watchers'][-1]
         sw['opts']['singleton'] = True
